@@ -93,6 +93,7 @@ type interpreter struct {
 	nondet    []NondetRec
 	observes  []obsRec
 	known     []knownPred
+	soft      []*smt.Term
 	spawned   []*spawnedCall
 	viol      []Violation
 	reached   map[string]int
@@ -643,6 +644,18 @@ func (i *interpreter) replayVals(m map[string]uint64) []ReplayVal {
 	return out
 }
 
+// modelFor asks for a model of path ∧ extra, preferring one that also satisfies
+// the harness's soft constraints (rt.Prefer: small, natively replayable values).
+func (i *interpreter) modelFor(vars []*smt.Term, extra ...*smt.Term) (smt.Result, map[string]uint64) {
+	if len(i.soft) > 0 {
+		all := append(append([]*smt.Term{}, extra...), i.soft...)
+		if r, m := i.solver.CheckModel(vars, all...); r == smt.Sat {
+			return r, m
+		}
+	}
+	return i.solver.CheckModel(vars, extra...)
+}
+
 // userAssert implements rt.Assert.
 func (i *interpreter) userAssert(cond value, id string) {
 	i.reached[id]++
@@ -668,7 +681,7 @@ func (i *interpreter) userAssert(cond value, id string) {
 	K := i.knownDisj()
 	vars := i.inputVars()
 	// ordinary violation: path ∧ ¬c ∧ ¬K
-	r, m := i.solver.CheckModel(vars, neg, i.ctx.Not(K))
+	r, m := i.modelFor(vars, neg, i.ctx.Not(K))
 	if r == smt.Unknown {
 		panic(i.solverFail("assert " + id))
 	}
@@ -680,7 +693,7 @@ func (i *interpreter) userAssert(cond value, id string) {
 			if !i.ex.cfg.KnownActive[kp.id] {
 				continue
 			}
-			r, m := i.solver.CheckModel(vars, neg, kp.cond)
+			r, m := i.modelFor(vars, neg, kp.cond)
 			if r == smt.Unknown {
 				panic(i.solverFail("assert(known) " + id))
 			}
@@ -706,7 +719,7 @@ func (i *interpreter) reportOutcome(kind, id, site, msg string) {
 	}
 	K := i.knownDisj()
 	vars := i.inputVars()
-	r, m := i.solver.CheckModel(vars, i.ctx.Not(K))
+	r, m := i.modelFor(vars, i.ctx.Not(K))
 	if r == smt.Sat {
 		v := i.mkViolation(kind, id, site, m, "")
 		v.Msg = msg
@@ -717,7 +730,7 @@ func (i *interpreter) reportOutcome(kind, id, site, msg string) {
 			if !i.ex.cfg.KnownActive[kp.id] {
 				continue
 			}
-			r, m := i.solver.CheckModel(vars, kp.cond)
+			r, m := i.modelFor(vars, kp.cond)
 			if r == smt.Sat {
 				v := i.mkViolation(kind, id, site, m, kp.id)
 				v.Msg = msg
@@ -753,7 +766,7 @@ func (i *interpreter) addViolation(kind, id, site string, m map[string]uint64, k
 // values of its Observe terms under that witness.
 func (i *interpreter) sample(outcome string) *PathSample {
 	vars := i.inputVars()
-	r, m := i.solver.CheckModel(vars)
+	r, m := i.modelFor(vars)
 	if r != smt.Sat {
 		return nil
 	}
